@@ -516,7 +516,7 @@ func init() {
 		"(for [(def i 0) (< i 1) (def i (+ i 1))])", "(cond false 1)", "(let [] (newScope))")
 }
 
-var c01Cyclic = []string{"(let [cy (hash)] (hset cy self: cy) cy)", "(let [ca [1 2]] (aset ca 0 ca) ca)", "(let [cb [1] ch (hash)] (hset ch arr: cb) (aset cb 0 ch) cb)",
+var c01Cyclic = []string{"(let [ck [0]] (aset ck 0 ck) ck)", "(let [cy (hash)] (hset cy self: cy) cy)", "(let [ca [1 2]] (aset ca 0 ca) ca)", "(let [cb [1] ch (hash)] (hset ch arr: cb) (aset cb 0 ch) cb)",
 	"(let [cc [1 [2]]] (aset (aget cc 1) 0 cc) cc)", "(let [cd (hash a: [1])] (aset (hget cd a:) 0 cd) cd)"}
 
 var c01SpecialForms = []string{"and", "or", "cond", "quote", "def", "mdef", "fn", "defn", "begin", "let", "letseq", "assert", "defmac", "macexpand", "syntaxQuote", "for", "set", "break", "continue", "newScope", "package", "return", "_ls",
@@ -670,7 +670,8 @@ func genC01Calls(r *kernel.RNG, tier string, i int) interface{} {
 	}
 	if cyclicOnly {
 		// values that contain themselves as keys
-		sc.Texts = append(sc.Texts, fmt.Sprintf("(def hk9 (hash %s 1 %s 2))", c01Cyclic[1], c01Cyclic[3]), "(hpair hk9 1)", "(str hk9)", "(str (keys hk9))", "(hget hk9 "+c01Cyclic[1]+" 0)",
+		sc.Texts = append(sc.Texts, fmt.Sprintf("(def hk9 (hash %s 1 %s 2))", c01Cyclic[2], c01Cyclic[4]), "(hpair hk9 1)", "(str hk9)", "(str (keys hk9))", "(hget hk9 "+c01Cyclic[2]+" 0)",
+			"(hget (hash a: 1) "+c01Cyclic[0]+" 0)", "(hset (hash) "+c01Cyclic[0]+" 1)", "(hdel (hash a: 1) "+c01Cyclic[0]+")",
 			"(def hk8 (hash (let [ca [1 2]] (aset ca 0 ca) ca) 1 (let [cb [1 2]] (aset cb 0 cb) cb) 2))", "(hpair hk8 1)", "(str hk8)")
 	}
 	return sc
